@@ -36,9 +36,16 @@ class Dim:
         from laspy import ExtraBytesParams
         kw = {}
         if self.scaling is not None:
-            kw["scales"] = np.array(self.scaling[0])
-            kw["offsets"] = np.array(self.scaling[1])
+            kw["scales"] = np.array(self.scaling[0], dtype=np.float64)
+            kw["offsets"] = np.array(self.scaling[1], dtype=np.float64)
+            self._given = (kw["scales"], kw["offsets"])
         return ExtraBytesParams(name=self.name, type=self.type_str(), description=self.desc, **kw)
+
+    def scribble(self):
+        """the caller re-uses the arrays it passed as scales / offsets (e.g. `scales *= 10` for the next dimension): the dimension keeps its own"""
+        for a in getattr(self, "_given", ()):
+            a *= 7.0
+            a += 3.0
 
     def size(self):
         if self.type_id == 0:
@@ -97,6 +104,69 @@ def expect_state(dims):
     return out
 
 
+def partly_described_layer(ck, n_cases):
+    """a file whose extra-bytes record describes only the first of its extra dimensions (the rest of each record's extra bytes is not described, as files
+    of other producers have it): laspy reads it with the record length of the file, the described dimension under its name, and add / remove
+    histories keep the record length equal to standard + extra bytes"""
+    import laspy
+    for ci in range(n_cases):
+        minor, fmt = fio.PAIRS[(2 * ci + 1) % len(fio.PAIRS)]
+        n = [1, 3, 4][ci % 3]
+        las = fio.make_las(ck.rng, minor, fmt, n)
+        t1, t2 = ck.rng.choice(["u2", "i4", "f8", "2u1"]), ck.rng.choice(["u1", "3i2", "f4", "u8"])
+        las.add_extra_dims([laspy.ExtraBytesParams("kept", t1), laspy.ExtraBytesParams("undescribed", t2)])
+        raw = bytes(ck.rng.getrandbits(8) for _ in range(n * las.points.array.dtype.itemsize))
+        las.points.array[:] = np.frombuffer(raw, dtype=las.points.array.dtype)
+        las.update_header()
+        b0 = io.BytesIO()
+        las.write(b0)
+        data = bytearray(b0.getvalue())
+        hsize, off, nvlr = int.from_bytes(data[94:96], "little"), int.from_bytes(data[96:100], "little"), int.from_bytes(data[100:104], "little")
+        pos, done = hsize, False
+        for _ in range(nvlr):
+            ln = int.from_bytes(data[pos + 20:pos + 22], "little")
+            if bytes(data[pos + 2:pos + 18]).split(b"\0")[0] == b"LASF_Spec" and int.from_bytes(data[pos + 18:pos + 20], "little") == 4 and ln == 384:
+                data[pos + 20:pos + 22] = (192).to_bytes(2, "little")
+                del data[pos + 54 + 192:pos + 54 + 384]
+                done = True
+                break
+            pos += 54 + ln
+        if not done:
+            ck.count("partly_described:no_record_found")
+            continue
+        data[96:100] = (off - 192).to_bytes(4, "little")
+        data = bytes(data)
+        size = las.points.array.dtype.itemsize
+        records = bytes(b0.getvalue()[off:off + n * size])
+        inp = {"kind": "partly_described", "minor": minor, "fmt": fmt, "n": n, "described": "kept:" + t1, "not_described": t2, "record_size": size}
+        ck.case(("partly_described", minor, fmt, n, t1, t2, raw), nontrivial=True)
+        ck.count("partly_described_files")
+        try:
+            back = laspy.read(io.BytesIO(data))
+        except Exception as e:
+            ck.fail(f"a file whose extra-bytes record describes one of two extra dimensions could not be read: {type(e).__name__}: {e}", inp)
+            continue
+        if back.points.array.dtype.itemsize != size or back.header.point_format.size != size or back.points.array.tobytes() != records:
+            ck.fail(f"file with partly described extra bytes: record length {back.points.array.dtype.itemsize}, point format size {back.header.point_format.size}, "
+                    f"the file's records are {size} bytes; records read identical: {back.points.array.tobytes() == records}", inp)
+            continue
+        if "kept" not in list(back.point_format.extra_dimension_names) or np.ascontiguousarray(back["kept"]).tobytes() != np.ascontiguousarray(las["kept"]).tobytes():
+            ck.fail("file with partly described extra bytes: the described dimension is not presented under its name with its values", inp)
+        try:
+            back.add_extra_dim(laspy.ExtraBytesParams("added", "u2"))
+            if back.points.array.dtype.itemsize != back.header.point_format.size or back.points.array.dtype.itemsize != size + 2:
+                ck.fail(f"after adding a dimension to it: record length {back.points.array.dtype.itemsize}, point format size {back.header.point_format.size}, expected {size + 2}", inp)
+            if np.ascontiguousarray(back["kept"]).tobytes() != np.ascontiguousarray(las["kept"]).tobytes():
+                ck.fail("adding a dimension changed the values of the described dimension", inp)
+            b2 = io.BytesIO()
+            back.write(b2)
+            again = laspy.read(io.BytesIO(b2.getvalue()))
+            if again.points.array.tobytes() != back.points.array.tobytes():
+                ck.fail("the object read from a partly described file does not survive a write/read round trip after a dimension was added", inp)
+        except Exception as e:
+            ck.fail(f"editing / re-writing an object read from a partly described file raised {type(e).__name__}: {e}", inp)
+
+
 def fork_and_construct_layer(ck, n_cases):
     """(1) an object derived from another one (las[mask], deepcopy of the header, the writer's private copy) is independent:
     adding or removing an extra dimension on either leaves the other consistent and unchanged; (2) a header / LasData built
@@ -111,6 +181,8 @@ def fork_and_construct_layer(ck, n_cases):
         first = [gen_dim(ck.rng, used) for _ in range(ck.rng.choice([0, 1, 2]))]
         if first:
             las.add_extra_dims([d.params() for d in first])
+            for d_ in first:
+                d_.scribble()
         how = ["mask", "slice", "deepcopy_header", "points_reassigned_copy", "points_from_reader", "points_with_deepcopied_format"][ci % 6]
         if how == "points_reassigned_copy":
             # the same object, its points assigned again (an equal record carrying its own, equal, point format object)
@@ -166,6 +238,39 @@ def fork_and_construct_layer(ck, n_cases):
                     f"extra dimensions {[d[0] for d in now[0]]} (were {[d[0] for d in state_las[0]]}), record length {now[1]}, format size {now[2]}", inp)
         if las.header.point_format.size != las.points.array.dtype.itemsize:
             ck.fail(f"after editing a derived object the original's point format size {las.header.point_format.size} != record length {las.points.array.dtype.itemsize}", inp)
+    # objects made from scratch after all those edits start without extra dimensions: the history of one object is not the history of another
+    for label, make in (("LasHeader()", lambda: laspy.LasHeader()), ("laspy.create()", lambda: laspy.create().header),
+                        ("LasHeader(point_format=3)", lambda: laspy.LasHeader(point_format=3)), ("LasHeader(version='1.4')", lambda: laspy.LasHeader(version="1.4")),
+                        ("laspy.create(point_format=6)", lambda: laspy.create(point_format=6).header)):
+        for edit in ("add_on_header", "add_on_lasdata", "add_then_remove"):
+            inp = {"kind": "fresh_object", "made_by": label, "edit": edit}
+            ck.case(("fresh_object", label, edit), nontrivial=True)
+            ck.count("fresh_object")
+            try:
+                first = make()
+                if edit == "add_on_lasdata":
+                    l_ = laspy.LasData(first)
+                    l_.add_extra_dim(laspy.ExtraBytesParams("left_over", "u2"))
+                else:
+                    first.add_extra_dim(laspy.ExtraBytesParams("left_over", "u2"))
+                    if edit == "add_then_remove":
+                        first.add_extra_dim(laspy.ExtraBytesParams("second", "f8"))
+                        first.remove_extra_dim("left_over")
+                fresh = make()
+                names = list(fresh.point_format.extra_dimension_names)
+                nvlr = sum(1 for v in fresh.vlrs if type(v).__name__ == "ExtraBytesVlr")
+                if names or nvlr or fresh.point_format.size != laspy.PointFormat(fresh.point_format.id).size:
+                    ck.fail(f"{label} after another object made the same way was given extra dimensions ({edit}): the new object starts with extra dimensions {names}, "
+                            f"{nvlr} extra-bytes VLR(s), record length {fresh.point_format.size}", inp)
+            except Exception as e:
+                ck.fail(f"{label} / {edit} raised {type(e).__name__}: {e}", inp)
+            finally:
+                # leave no trace for the rest of the run
+                try:
+                    for nm in list(laspy.LasHeader.DEFAULT_POINT_FORMAT.extra_dimension_names):
+                        laspy.LasHeader.DEFAULT_POINT_FORMAT.remove_extra_dimension(nm)
+                except Exception:
+                    pass
     # built from a PointFormat that already has extra dimensions
     for ci in range(n_cases):
         minor, fmt = ck.rng.choice(fio.PAIRS)
@@ -285,8 +390,11 @@ def run(ck):
                         fk += ":opaque%d" % next(d.count for d in new if d.type_id == 0)
                     if len(new) == 1:
                         las.add_extra_dim(new[0].params())
+                        new[0].scribble()
                     else:
                         las.add_extra_dims([d.params() for d in new])
+                        for d_ in new:
+                            d_.scribble()
                     dims += new
                     ops_tok.append("A=" + "|".join(d.tok() for d in new))
                     flags.append("1")
@@ -398,6 +506,7 @@ def run(ck):
             ck.sample({"fmt": fmt, "n": n, "history": hist})
     ordered_removal_layer(ck)
     fork_and_construct_layer(ck, 25 if q else 400)
+    partly_described_layer(ck, 12 if q else 200)
     out = ck.driver(lines)
     bad = None
     if out is None or len(out) != len(lines):
